@@ -16,11 +16,17 @@ from ..runner import JobResult, Violation
 ID = "C05"
 LEVEL = "model_checking"
 TASKS_PER_CHILD = 4
-ENDIANS = ("<", ">", "!")
+import sys as _sys
+
+ENDIANS = ("<", ">", "!", "@", "=")  # every spelling the library accepts; '@' and '=' are the machine's byte order
+
+
+def canon_order(e):
+    return "<" if e == "<" or (e in "@=" and _sys.byteorder == "little") else ">"
 
 
 def bo(e):
-    return "little" if e == "<" else "big"
+    return "little" if canon_order(e) == "<" else "big"
 
 
 def names_for(canon):
@@ -44,7 +50,7 @@ def check_ints(res: JobResult, endian):
     from dissect.cstruct import cstruct
 
     cs = cstruct(endian=endian)
-    cfg = Cfg(endian=endian)
+    cfg = Cfg(endian=canon_order(endian))
     for canon, t in INTS.items():
         for name in names_for(canon):
             try:
@@ -106,7 +112,7 @@ def check_floats(res: JobResult, endian):
     from dissect.cstruct import cstruct
 
     cs = cstruct(endian=endian)
-    e = "<" if endian == "<" else ">"
+    e = canon_order(endian)
     for name, t in FLOATS.items():
         T = cs.resolve(name)
         if t.size == 2:
@@ -162,7 +168,7 @@ def check_chars(res: JobResult, endian):
     from dissect.cstruct import cstruct
 
     cs = cstruct(endian=endian)
-    enc = "utf-16-le" if endian == "<" else "utf-16-be"
+    enc = "utf-16-le" if canon_order(endian) == "<" else "utf-16-be"
     for name in names_for("char"):
         T = cs.resolve(name)
         for i in range(256):
@@ -226,7 +232,7 @@ def check_chars(res: JobResult, endian):
                     viol(res, "wchar:pair", name, endian, f"surrogate pair {b.hex()} decodes to {s!r}")
             except Exception as ex:  # noqa: BLE001
                 viol(res, "wchar:pair-raises", name, endian, f"{b.hex()}: {impl.exc_sig(ex)}")
-            for bad in (lo.to_bytes(2, bo(endian)) + hi.to_bytes(2, bo(endian)), hi.to_bytes(2, bo(endian)) + b"A\x00"[:: 1 if endian == "<" else -1]):
+            for bad in (lo.to_bytes(2, bo(endian)) + hi.to_bytes(2, bo(endian)), hi.to_bytes(2, bo(endian)) + b"A\x00"[:: 1 if canon_order(endian) == "<" else -1]):
                 try:
                     s = T[2](bad)
                     viol(res, "wchar:lone-surrogate-decoded", name, endian, f"invalid sequence {bad.hex()} decoded silently to {s!r}", input=bad.hex())
@@ -333,7 +339,7 @@ def check_histories(res: JobResult, tier, first):
                 name, kind, arg = ops[i]
                 hist.append(name)
                 res.transitions += 1
-                cfg = Cfg(endian=cur)
+                cfg = Cfg(endian=canon_order(cur))
                 try:
                     if kind == "set":
                         cs.endian = arg
@@ -383,10 +389,10 @@ def check_forms(res: JobResult, endian):
     from dissect.cstruct import cstruct
 
     cs = cstruct(endian=endian)
-    e = "<" if endian == "<" else ">"
+    e = canon_order(endian)
     cfg = Cfg(endian=e)
     byteorder = bo(endian)
-    enc16 = "utf-16-le" if endian == "<" else "utf-16-be"
+    enc16 = "utf-16-le" if canon_order(endian) == "<" else "utf-16-be"
     fams = []
     for canon, t in INTS.items():
         n = t.size * 8
